@@ -93,3 +93,242 @@ Theorem transfer_conserves_value : forall s a, s < W64 -> a <= s ->
     /\ s - a + a = s.
 Proof. exact transfer_conserves. Qed.
 Print Assumptions transfer_conserves_value.
+
+(** * Round 2: multi-limb scalars, the decryption table, completeness of transfers *)
+
+(** ** value_to_chunks / chunks_to_value (elgamal/mod.rs) on scalars of [nl] u64 limbs, field order [r] *)
+From CB Require Import Crypto.ValueChunks Crypto.ValueChunksProofs.
+
+Theorem value_chunks_roundtrip : forall r nl s x,
+  In s chunk_sizes -> s < 64 -> W64 <= r -> r <= 2 ^ (N.of_nat nl * 64) -> x < r ->
+  exists cs, value_to_chunks_checked r nl s x = Some cs
+    /\ length cs = (nl * num_chunks s)%nat
+    /\ Forall (fun c => c < 2 ^ s) cs
+    /\ chunks_to_value_checked r s cs = Some x.
+Proof. exact value_chunks_roundtrip_checked. Qed.
+Print Assumptions value_chunks_roundtrip.
+
+Theorem value_chunks_roundtrip_release : forall r nl s x,
+  In s chunk_sizes -> W64 <= r -> r <= 2 ^ (N.of_nat nl * 64) -> x < r ->
+  exists cs, value_to_chunks_wrapping r nl s x = Some cs
+    /\ length cs = (nl * num_chunks s)%nat
+    /\ Forall (fun c => c < 2 ^ s) cs
+    /\ chunks_to_value_wrapping r s cs = Some x.
+Proof. exact value_chunks_roundtrip_wrapping. Qed.
+Print Assumptions value_chunks_roundtrip_release.
+
+(** the documented "does not ensure there is no overflow", as an explicit side condition: chunks
+    below 2^size (any number of them) are summed exactly, modulo the field order *)
+Theorem chunks_to_value_no_overflow : forall r s cs,
+  r <> 0 -> In s chunk_sizes -> Forall (fun c => c < 2 ^ s) cs ->
+  chunks_to_value_checked r s cs = Some (chunk_sum s 0 cs mod r)
+  /\ chunks_to_value_wrapping r s cs = Some (chunk_sum s 0 cs mod r).
+Proof. intros r s cs Hr Hs Hb. split; [exact (chunks_to_value_checked_sum r s cs Hr Hs Hb)|exact (chunks_to_value_wrapping_sum r s cs Hr Hs Hb)]. Qed.
+Print Assumptions chunks_to_value_no_overflow.
+
+(** ... and it is a genuine side condition *)
+Example chunks_to_value_overflow_when_chunks_oversized :
+  chunks_to_value_checked r_bls_N 32 [2 ^ 32; 2 ^ 32 - 1] = None
+  /\ chunks_to_value_wrapping r_bls_N 32 [2 ^ 32; 2 ^ 32] = Some (2 ^ 32)
+  /\ chunk_sum 32 0 [2 ^ 32; 2 ^ 32] mod r_bls_N = 2 ^ 32 + 2 ^ 64
+  /\ chunks_to_value_checked r_bls_N 32 [2 ^ 64 + 5; 0] = Some 5.
+Proof. exact chunks_to_value_overflow_examples. Qed.
+Print Assumptions chunks_to_value_overflow_when_chunks_oversized.
+
+Example value_chunks_roundtrip_nonvacuous :
+  In 16 chunk_sizes /\ 16 < 64 /\ W64 <= r_bls_N /\ r_bls_N <= 2 ^ (N.of_nat 4 * 64) /\ r_bls_N - 1 < r_bls_N
+  /\ (exists cs, value_to_chunks_checked r_bls_N 4 16 (r_bls_N - 1) = Some cs /\ length cs = 16%nat
+                 /\ chunks_to_value_checked r_bls_N 16 cs = Some (r_bls_N - 1)).
+Proof.
+  split; [vm_compute; tauto|]. split; [reflexivity|]. split; [vm_compute; discriminate|].
+  split; [vm_compute; discriminate|]. split; [reflexivity|].
+  eexists. split; [vm_compute; reflexivity|]. split; vm_compute; reflexivity.
+Qed.
+Print Assumptions value_chunks_roundtrip_nonvacuous.
+
+(** ** BabyStepGiantStep (elgamal/secret.rs) over any commutative group with decidable equality *)
+From CB Require Import Crypto.Bsgs Crypto.BsgsProofs Crypto.ElGamalBsgs.
+
+Section C12_Bsgs.
+  Variable G : Type.
+  Variables (gzero : G) (gadd : G -> G -> G) (gopp : G -> G) (geqb : G -> G -> bool).
+  Hypothesis gadd_assoc : forall a b c, gadd a (gadd b c) = gadd (gadd a b) c.
+  Hypothesis gadd_comm : forall a b, gadd a b = gadd b a.
+  Hypothesis gadd_0_l : forall a, gadd gzero a = a.
+  Hypothesis gadd_opp : forall a, gadd a (gopp a) = gzero.
+  Hypothesis geqb_spec : forall a b, geqb a b = true <-> a = b.
+  Variable base : G.
+  Variable bound : N.
+  Hypothesis base_inj : forall a b, a < bound -> b < bound ->
+    nmul G gzero gadd a base = nmul G gzero gadd b base -> a = b.
+
+  (** every x below the bound: the table of size m finds x at giant step x/m, i.e. within x/m + 1
+      lookups, as i*m + j without u64 overflow *)
+  Theorem bsgs_discrete_log : forall m x fuel,
+    0 < m -> m <= bound -> x < bound -> x < W64 -> (N.to_nat (x / m) < fuel)%nat ->
+    discrete_log G gadd geqb fuel (bsgs_new G gzero gadd gopp base m) (nmul G gzero gadd x base) = DlFound x.
+  Proof. intros m x fuel Hm Hle. eapply bsgs_discrete_log_correct; eassumption. Qed.
+  Print Assumptions bsgs_discrete_log.
+
+  Theorem bsgs_giant_steps_exact : forall m x fuel,
+    0 < m -> m <= bound -> x < bound -> N.of_nat fuel <= x / m ->
+    discrete_log G gadd geqb fuel (bsgs_new G gzero gadd gopp base m) (nmul G gzero gadd x base) = DlFuel.
+  Proof. intros m x fuel Hm Hle. eapply bsgs_needs_steps; eassumption. Qed.
+  Print Assumptions bsgs_giant_steps_exact.
+End C12_Bsgs.
+
+Example bsgs_table_larger_than_order_refuted :
+  let gadd := fun a b : N => (a + b) mod 5 in
+  let gopp := fun a : N => (5 - a) mod 5 in
+  discrete_log N gadd N.eqb 3 (bsgs_new N 0 gadd gopp 1 10) (nmul N 0 gadd 3 1) = DlFound 8.
+Proof. exact bsgs_wrong_when_table_exceeds_order. Qed.
+Print Assumptions bsgs_table_larger_than_order_refuted.
+
+Example bsgs_nonvacuous :
+  let gadd := fun a b : N => (a + b) mod 1009 in
+  let gopp := fun a : N => (1009 - a) mod 1009 in
+  discrete_log N gadd N.eqb 64 (bsgs_new N 0 gadd gopp 1 16) (nmul N 0 gadd 1000 1) = DlFound 1000
+  /\ discrete_log N gadd N.eqb 62 (bsgs_new N 0 gadd gopp 1 16) (nmul N 0 gadd 1000 1) = DlFuel.
+Proof. split; vm_compute; reflexivity. Qed.
+Print Assumptions bsgs_nonvacuous.
+
+(** decrypt_amount with the table algorithm in place of the abstract [dlog]: the only assumption
+    left about the table is that x*h, x < ord, are pairwise distinct *)
+Section C12_ElGamalBsgs.
+  Variable F : Type.
+  Variables (f0 f1 : F) (fadd fmul fsub : F -> F -> F) (fopp : F -> F).
+  Hypothesis Fring : ring_theory f0 f1 fadd fmul fsub fopp (@eq F).
+  Variable G : Type.
+  Variables (gzero : G) (gadd : G -> G -> G) (gopp : G -> G) (smul : F -> G -> G) (geqb : G -> G -> bool).
+  Hypothesis gadd_assoc : forall a b c, gadd a (gadd b c) = gadd (gadd a b) c.
+  Hypothesis gadd_comm : forall a b, gadd a b = gadd b a.
+  Hypothesis gadd_0_l : forall a, gadd gzero a = a.
+  Hypothesis gadd_opp : forall a, gadd a (gopp a) = gzero.
+  Hypothesis smul_add_l : forall x y a, smul (fadd x y) a = gadd (smul x a) (smul y a).
+  Hypothesis smul_add_r : forall x a b, smul x (gadd a b) = gadd (smul x a) (smul x b).
+  Hypothesis smul_mul : forall x y a, smul (fmul x y) a = smul x (smul y a).
+  Hypothesis smul_1 : forall a, smul f1 a = a.
+  Hypothesis geqb_spec : forall a b, geqb a b = true <-> a = b.
+  Variables (g h : G).
+  Variable ord : N.
+  Hypothesis h_inj : forall a b, a < ord -> b < ord ->
+    smul (f_of_N F f0 f1 fadd fmul a) h = smul (f_of_N F f0 f1 fadd fmul b) h -> a = b.
+  Variable m : N.
+  Variable fuel : nat.
+  Hypothesis m_pos : 0 < m.
+  Hypothesis m_le : m <= ord.
+
+  Let table := bsgs_new G gzero gadd gopp h m.
+  Let dlogf := bsgs_dlog G gadd geqb fuel table.
+  Let pk := pk_of F G smul g.
+
+  Theorem decrypt_amount_correct_with_bsgs :
+    2 ^ 32 <= ord -> (N.to_nat ((2 ^ 32 - 1) / m) < fuel)%nat ->
+    forall sk x klo khi, x < W64 ->
+    exists e, encrypt_amount F f0 f1 fadd fmul G gadd smul g h (pk sk) x klo khi = Some e
+           /\ decrypt_amount F G gadd gopp smul dlogf sk e = Some x.
+  Proof. intros; eapply decrypt_amount_correct_with_bsgs_; eassumption. Qed.
+  Print Assumptions decrypt_amount_correct_with_bsgs.
+
+  (** aggregation decrypts to the sum, including a carry out of the low chunk, whenever the per-chunk
+      sums (at most 2^33 - 2) stay inside the table range and the total is a u64 *)
+  Theorem aggregate_decrypt_amount_with_bsgs :
+    2 ^ 33 <= ord -> (N.to_nat ((2 ^ 33 - 1) / m) < fuel)%nat ->
+    forall sk x y k1 k2 k3 k4, x + y < W64 ->
+    exists ex ey, encrypt_amount F f0 f1 fadd fmul G gadd smul g h (pk sk) x k1 k2 = Some ex
+      /\ encrypt_amount F f0 f1 fadd fmul G gadd smul g h (pk sk) y k3 k4 = Some ey
+      /\ decrypt_amount F G gadd gopp smul dlogf sk (aggregate G gadd ex ey) = Some (x + y).
+  Proof. intros; eapply aggregate_decrypt_amount_with_bsgs_; eassumption. Qed.
+  Print Assumptions aggregate_decrypt_amount_with_bsgs.
+End C12_ElGamalBsgs.
+
+(** ** completeness of encrypted transfers and secret-to-public transfers: composition of C07
+    (EncTrans sigma protocol + Fiat-Shamir) and C11 (range proof), for every field and module *)
+From CB Require Import Crypto.Alg Crypto.Transcript Crypto.SigmaGeneric Crypto.SigmaCodec Crypto.Sigma_com_eq
+  Crypto.Sigma_enc_trans Crypto.RangeProof Crypto.EncTransfer Crypto.EncTransferProofs Crypto.AlgF2.
+
+Section C12_Transfer.
+  Context {K : FieldOps} {KL : FieldLaws K} {M : ModOps K} {ML : ModLaws M} (Cd : CodecOps M).
+  Variable H : bytes -> bytes.
+  Variable sfb : bytes -> K.
+  Variables (g h : M) (Gs Hs : list M).
+  Local Open Scope G_scope.
+
+  (** what the statement of [gen_enc_trans_proof_info] asserts about a witness (sk, (a_j, r_j), (s'_j, r'_j)) *)
+  Theorem enc_trans_statement_meaning : forall pk_s pk_r (S : cipher) (A S' : list cipher) sk w1 w2,
+    enc_trans_rel (gen_enc_trans_proof_info g h pk_s pk_r S A S') (sk, w1, w2)
+    <-> (pk_s = sk *: g
+         /\ Forall2 (fun c w => c = encrypt_exp g h pk_r (fst w) (snd w)) A w1
+         /\ Forall2 (fun c w => c = encrypt_exp g h pk_s (fst w) (snd w)) S' w2
+         /\ decrypt sk S = Fadd K (lin2 (map fst w1)) (lin2 (map fst w2)) *: h).
+  Proof. exact (enc_trans_statement_meaning_ g h). Qed.
+  Print Assumptions enc_trans_statement_meaning.
+
+  Theorem transfer_complete : forall gc pk_r sk agg_enc s idx a rnd ch_a ch_s,
+    (s < W64)%N -> (a <= s)%N ->
+    decrypt sk (join agg_enc) = kofN s *: h ->
+    List.length (tr_A rnd) = 2%nat -> List.length (tr_S rnd) = 2%nat -> sigma_rand_ok 2 2 (tr_sigma rnd) ->
+    bp_rand_ok (tr_bp_a rnd) -> bp_rand_ok (tr_bp_s rnd) -> bp_chal_ok ch_a -> bp_chal_ok ch_s ->
+    (64 <= List.length Gs)%nat -> (64 <= List.length Hs)%nat ->
+    exists td a0 a1 r0 r1,
+      make_transfer_data Cd H sfb g h Gs Hs gc pk_r sk agg_enc s idx a rnd ch_a ch_s = Some td
+      /\ verify_transfer_data Cd H sfb g h Gs Hs gc pk_r (sk *: g) agg_enc td ch_a ch_s = true
+      /\ td_index td = idx
+      /\ (a0 + 2 ^ 32 * a1 = a)%N /\ (r0 + 2 ^ 32 * r1 = s - a)%N
+      /\ enc_list (td_transfer td) = encrypt_chunks g h pk_r [a0; a1] (tr_A rnd)
+      /\ enc_list (td_remaining td) = encrypt_chunks g h (sk *: g) [r0; r1] (tr_S rnd).
+  Proof. exact (transfer_complete_ Cd H sfb g h Gs Hs). Qed.
+  Print Assumptions transfer_complete.
+
+  Theorem sec_to_pub_complete : forall gc sk agg_enc s idx a rnd ch_s,
+    (s < W64)%N -> (a <= s)%N ->
+    decrypt sk (join agg_enc) = kofN s *: h ->
+    List.length (sr_S rnd) = 2%nat -> sigma_rand_ok 1 2 (sr_sigma rnd) ->
+    bp_rand_ok (sr_bp_s rnd) -> bp_chal_ok ch_s ->
+    (64 <= List.length Gs)%nat -> (64 <= List.length Hs)%nat ->
+    exists sd r0 r1,
+      make_sec_to_pub_transfer_data Cd H sfb g h Gs Hs gc sk agg_enc s idx a rnd ch_s = Some sd
+      /\ verify_sec_to_pub_transfer_data Cd H sfb g h Gs Hs gc (sk *: g) agg_enc sd ch_s = true
+      /\ sd_index sd = idx /\ sd_transfer_amount sd = a
+      /\ (r0 + 2 ^ 32 * r1 = s - a)%N
+      /\ enc_list (sd_remaining sd) = encrypt_chunks g h (sk *: g) [r0; r1] (sr_S rnd).
+  Proof. exact (sec_to_pub_complete_ Cd H sfb g h Gs Hs). Qed.
+  Print Assumptions sec_to_pub_complete.
+
+  (** the remaining / transferred ciphertexts of the theorems above decrypt (in the exponent) to their chunks *)
+  Theorem transfer_parts_decrypt : forall sk x k, decrypt sk (encrypt_exp g h (sk *: g) x k) = x *: h.
+  Proof. exact (decrypt_encrypt_exp g h). Qed.
+  Print Assumptions transfer_parts_decrypt.
+
+  Theorem transfer_exceeding_balance_not_produced : forall gc pk_r sk agg_enc s idx a rnd ch_a ch_s rnd' ,
+    (s < a)%N ->
+    make_transfer_data Cd H sfb g h Gs Hs gc pk_r sk agg_enc s idx a rnd ch_a ch_s = None
+    /\ make_sec_to_pub_transfer_data Cd H sfb g h Gs Hs gc sk agg_enc s idx a rnd' ch_s = None.
+  Proof.
+    intros. split; [apply transfer_none_if_exceeds_; assumption|apply sec_to_pub_none_if_exceeds_; assumption].
+  Qed.
+  Print Assumptions transfer_exceeding_balance_not_produced.
+End C12_Transfer.
+
+(** non-vacuity: every hypothesis of [transfer_complete] / [sec_to_pub_complete] is satisfiable
+    (a lawful field and module exist: F2; all side conditions hold for concrete inputs) *)
+Example transfer_complete_nonvacuous :
+  let Cd := mkCodecOps F2 F2M (fun b : bool => [if b then 1 else 0]%N) (fun b : bool => [if b then 1 else 0]%N) 1 1 in
+  let ones := repeat true 64 in
+  let br := @mkBpRand F2 ones ones true false true false in
+  let ch := @mkBpChal F2 true false true true (repeat true 6) in
+  let rnd := @mkTR F2 [true; false] [false; true] (true, [(true, false); (false, true)], [(true, true); (false, false)]) br br in
+  let agg : @enc_amount F2 F2M := ((false, true), (false, false)) in
+  exists td, make_transfer_data (K:=F2) (M:=F2M) Cd (fun b => b) (fun _ => true) true true ones ones [] true true agg 5 0 3 rnd ch ch = Some td
+    /\ verify_transfer_data (K:=F2) (M:=F2M) Cd (fun b => b) (fun _ => true) true true ones ones [] true (andb true true) agg td ch ch = true.
+Proof.
+  intros Cd ones br ch rnd agg.
+  assert (Hch : bp_chal_ok ch).
+  { split; [discriminate|]. split; [reflexivity|]. repeat constructor; discriminate. }
+  destruct (@transfer_complete_ F2 F2_laws F2M F2M_laws Cd (fun b => b) (fun _ => true) true true ones ones
+              [] true true agg 5 0 3 rnd ch ch) as (td & _ & _ & _ & _ & E1 & E2 & _);
+    [reflexivity | discriminate | vm_compute; reflexivity | reflexivity | reflexivity | split; reflexivity
+    | split; reflexivity | split; reflexivity | exact Hch | exact Hch | cbn; apply le_n | cbn; apply le_n | ].
+  exists td. split; assumption.
+Qed.
+Print Assumptions transfer_complete_nonvacuous.
